@@ -251,19 +251,50 @@ class Sample:
                 log.trace(f"[sam] ignoring {pos}: {ref}->{alt}")
                 return pos, None
 
+        def equivalents(pos, op):
+            """Other placements of an insertion or deletion within a repeat (same haplotype)."""
+            try:
+                for step in (1, -1):
+                    p, seq = pos, op[3:]
+                    for _ in range(100):
+                        if op.startswith("ins"):  # inserted after p
+                            ok = self.gene[p + 1] == seq[0] if step > 0 else self.gene[p] == seq[-1]
+                        else:  # deletes [p, p + len(seq))
+                            ok = (
+                                self.gene[p + len(seq)] == seq[0]
+                                if step > 0
+                                else self.gene[p - 1] == seq[-1]
+                            )
+                        if not ok:
+                            break
+                        seq = seq[1:] + seq[0] if step > 0 else seq[-1] + seq[:-1]
+                        p += step
+                        yield p, op[:3] + seq
+            except (KeyError, IndexError):
+                return
+
         def get_indel(pos, ref, alt):
             mut = get_mut(pos, ref, alt)
-            if mut[1] != "_" and mut not in self.gene.mutations:
-                # Alleles of a multi-allelic record share the longest REF: an indel can carry
-                # trailing bases of another allele and, in a repeat, land to the right of
-                # the database's placement. Try the form without the shared trailing bases.
-                r, a = ref, alt
-                while len(r) > 1 and len(a) > 1 and r[-1] == a[-1]:
-                    r, a = r[:-1], a[:-1]
-                if r != ref:
-                    trimmed = get_mut(pos, r, a)
-                    if trimmed in self.gene.mutations:
-                        return trimmed
+            if mut[1] == "_" or mut in self.gene.mutations:
+                return mut
+            # The record's placement is not a database variant. Alleles of a multi-allelic
+            # record share the longest REF (an indel then carries trailing bases of another
+            # allele), and callers left-align indels in repeats while the databases do not
+            # always: look for the database's placement of the same haplotype.
+            cands = [mut]
+            r, a = ref, alt
+            while len(r) > 1 and len(a) > 1 and r[-1] == a[-1]:
+                r, a = r[:-1], a[:-1]
+            if r != ref:
+                cands.append(get_mut(pos, r, a))
+            for c in cands:
+                if c in self.gene.mutations:
+                    return c
+            for c in cands:
+                if c[1] and c[1][:3] in ("ins", "del") and "ins" not in c[1][3:]:
+                    for eq in equivalents(*c):
+                        if eq in self.gene.mutations:
+                            return eq
             return mut
 
         def get_muts(pos, ref, alt):
